@@ -75,8 +75,13 @@ def wild_extract(tr, raw):
         for k, v in tr.items():
             m = re.match(r'%s\[(\d+)l?\]' % nm, k)
             if m:
-                try: d[int(m.group(1))] = int(v) & 0xff
-                except ValueError: pass
+                v = v.strip()
+                try:
+                    if v.startswith("'"):
+                        import ast
+                        d[int(m.group(1))] = ord(ast.literal_eval(v)) & 0xff
+                    else: d[int(v.rstrip('ul')) if False else int(m.group(1))] = int(v) & 0xff
+                except (ValueError, SyntaxError): pass
         out = []
         for i in range(len(d)):
             if i not in d or d[i] == 0: break
